@@ -9,7 +9,9 @@ from contracts.spec_mdp import *
 
 def mk(module, cls_name, extra_kw, gamma_dom):
     target = f"{module}.{cls_name}.__init__"
-    def setup(I):
+    def setup_route(route):
+        return lambda I: setup(I, route)
+    def setup(I, route="kwargs"):
         stub = ProblemStub(I)
         pcls = I.load_module("mdpax.core.problem").globals["Problem"]
         prob = Obj(pcls, dict(stub.obj.attrs), label="problem")
@@ -19,7 +21,17 @@ def mk(module, cls_name, extra_kw, gamma_dom):
         I.assume(z3.And(gamma_dom(g), e > 0, mbs >= 1, Dev >= 1))
         kw = dict(epsilon=e, max_batch_size=mbs, verbose=0); kw.update(extra_kw(I))
         if cls_name != "RelativeValueIteration": kw["gamma"] = g
-        return Ctx(self=Obj(cls, {}, label="solver"), _args=[prob], _kwargs=kw, g=g, e=e, I=I)
+        if route == "config_only":
+            # second construction route: a configuration object alone (solver configuration embedding the problem configuration); the REAL config
+            # dataclass is built and validated by the interpreter, hydra's instantiate (assumed contract) returns the problem the embedded config describes
+            pcfg_cls = I.load_module("mdpax.problems.forest").globals["ForestConfig"]
+            pcfg = Obj(pcfg_cls, dict(_target_="mdpax.problems.forest.Forest", S=z3.Int("S"), r1=4.0, r2=2.0, p=z3.Real("p")), label="problem_config")
+            prob.attrs["config"] = pcfg
+            calls = []
+            I.ghost["instantiate"] = lambda c_: (calls.append(c_), prob)[1]
+            cfg = I.call(I.getattr(Obj(cls, {}, label="probe"), "Config"), [], dict(kw, problem=pcfg))
+            return Ctx(self=Obj(cls, {}, label="solver"), _args=[], _kwargs={"config": cfg}, g=g, e=e, I=I, calls=calls, pcfg=pcfg, route=route, prob=prob, kw=kw)
+        return Ctx(self=Obj(cls, {}, label="solver"), _args=[prob], _kwargs=kw, g=g, e=e, I=I, route=route, prob=prob, kw=kw)
     def inv(c, q):
         s = c.self; x = z3.Int("s!ci"); q.hyps += [x >= 0, x < N]
         v = s.attrs.get("values")
@@ -27,7 +39,23 @@ def mk(module, cls_name, extra_kw, gamma_dom):
         if not ok: return z3.BoolVal(False)
         return z3.And(toz3(v.shape[0]) == N, toz3(v.get((x,))) == INITV(ST(x)), toz3(s.attrs["iteration"]) == 0, toz3(s.attrs["conv_threshold"]) > 0,
                       z3.BoolVal(s.attrs.get("checkpoint_manager") is None))
-    contract(target, setup=setup, ensures={"constructed_values_initial_iteration_zero_threshold_positive": inv})
+    def same_parameters(c, q):
+        """whatever the route, the solver's core attributes are the given parameters and its problem is the given / described problem (so both routes build the same solver)"""
+        s_ = c.self; a = s_.attrs
+        ok = [z3.BoolVal(a.get("problem") is c.prob), toz3(a["epsilon"]) == c.e, toz3(a["max_batch_size"]) == toz3(c.kw["max_batch_size"])]
+        if "gamma" in c.kw: ok.append(toz3(a["gamma"].get(()) if isinstance(a["gamma"], SArr) else a["gamma"]) == c.g)
+        for k_, v_ in c.kw.items():
+            if k_ in ("epsilon", "max_batch_size", "gamma", "verbose"): continue
+            got = a["config"].attrs.get(k_)
+            ok.append(toz3(got) == toz3(v_) if (is_z3(v_) or isinstance(v_, (int, float))) and not isinstance(v_, bool) else z3.BoolVal(got == v_))
+        if c.route == "config_only": ok.append(z3.BoolVal(c.calls == [c.pcfg]))
+        # attributes derived from the parameters at construction time
+        if "random_seed" in c.kw: ok.append(a["key"] == c.I.rand["KEY0"](toz3(c.kw["random_seed"])))
+        if "period" in c.kw: ok.append(toz3(a["period"]) == toz3(c.kw["period"]))
+        if "max_eval_iter" in c.kw: ok.append(toz3(a["config"].attrs["max_eval_iter"]) == toz3(c.kw["max_eval_iter"]))
+        return z3.And(*ok)
+    contract(target, scenarios=[("", setup_route("kwargs")), ("config_only.", setup_route("config_only"))],
+             ensures={"constructed_values_initial_iteration_zero_threshold_positive": inv, "core_attributes_are_the_given_parameters_on_this_route": same_parameters})
     return target
 POS = lambda g: z3.And(g > 0, g <= 1)          # gamma = 0 is the recorded known finding C20-gamma-zero-overflow (reported by the threshold unit)
 TARGETS = [
